@@ -1,6 +1,6 @@
 //! Scenario runner against the REAL watchexec library crate (real notify watchers on a temporary directory).
 use std::{sync::{atomic::{AtomicUsize, Ordering}, Arc}, time::Duration};
-use watchexec::{sources::fs::Watcher, Watchexec};
+use watchexec::{sources::fs::Watcher, Watchexec, WatchedPath};
 
 async fn run(name: &str) -> Result<(), String> {
     let dir = std::env::temp_dir().join(format!("vx-replay-lib-{}-{}", name, std::process::id()));
@@ -30,6 +30,50 @@ async fn run(name: &str) -> Result<(), String> {
             let _ = std::fs::remove_dir_all(&dir);
             if before >= 1 && after > mid { Ok(()) }
             else { Err(format!("batches with paths: {before} before the kind change (want >= 1), {mid} -> {after} around a new file written after switching to the poll watcher (want an increase: the path set must be registered with the new watcher)")) }
+        }
+        // C13: a path whose recursion mode is changed while its unwatch fails (the watched directory was deleted and re-created, so
+        // notify has already forgotten it) must still be registered after a LATER, fault-free configuration change
+        "mode_change_after_failed_unwatch" => {
+            let p = dir.join("p"); let q = dir.join("q");
+            std::fs::create_dir_all(&p).unwrap(); std::fs::create_dir_all(&q).unwrap();
+            let seen = Arc::new(AtomicUsize::new(0));
+            let errs = Arc::new(AtomicUsize::new(0));
+            let s2 = seen.clone(); let e2 = errs.clone();
+            let wx = Watchexec::new(move |action| { if action.paths().next().is_some() { s2.fetch_add(1, Ordering::SeqCst); } action }).map_err(|e| e.to_string())?;
+            wx.config.on_error(move |e: watchexec::ErrorHook| { if matches!(e.error, watchexec::error::RuntimeError::FsWatcher { .. }) { e2.fetch_add(1, Ordering::SeqCst); } });
+            wx.config.throttle(Duration::from_millis(20));
+            wx.config.pathset([WatchedPath::recursive(p.clone())]);
+            let main = wx.main();
+            tokio::time::sleep(Duration::from_millis(500)).await;
+            std::fs::write(p.join("a.txt"), "1").unwrap();
+            tokio::time::sleep(Duration::from_millis(500)).await;
+            let s_a = seen.load(Ordering::SeqCst);
+            std::fs::remove_dir_all(&p).unwrap();
+            tokio::time::sleep(Duration::from_millis(500)).await;
+            std::fs::create_dir_all(&p).unwrap();
+            tokio::time::sleep(Duration::from_millis(300)).await;
+            // change the recursion mode of p: unwatch(p) fails (watch not found), watch(p, non-recursive) succeeds
+            wx.config.pathset([WatchedPath::non_recursive(p.clone())]);
+            tokio::time::sleep(Duration::from_millis(500)).await;
+            let e_b = errs.load(Ordering::SeqCst);
+            let s_b0 = seen.load(Ordering::SeqCst);
+            std::fs::write(p.join("b.txt"), "2").unwrap();
+            tokio::time::sleep(Duration::from_millis(500)).await;
+            let s_b = seen.load(Ordering::SeqCst);
+            // a later change that touches only q, with no failure
+            wx.config.pathset([WatchedPath::non_recursive(p.clone()), WatchedPath::recursive(q.clone())]);
+            tokio::time::sleep(Duration::from_millis(500)).await;
+            let e_c = errs.load(Ordering::SeqCst);
+            let s_c0 = seen.load(Ordering::SeqCst);
+            std::fs::write(p.join("c.txt"), "3").unwrap();
+            tokio::time::sleep(Duration::from_millis(700)).await;
+            let s_c = seen.load(Ordering::SeqCst);
+            main.abort();
+            let _ = std::fs::remove_dir_all(&dir);
+            if s_a < 1 { return Err(format!("setup: no event from p before anything happened")); }
+            if e_b < 1 || s_b <= s_b0 { return Err(format!("setup not reached: fs watcher errors after the mode change = {e_b} (want >= 1: the unwatch must fail), batches {s_b0} -> {s_b} after writing p/b.txt (want an increase)")); }
+            if s_c > s_c0 { Ok(()) }
+            else { Err(format!("p is configured (non-recursive) but no longer registered: after a fault-free change adding q (fs watcher errors {e_b} -> {e_c}), writing p/c.txt produced no event (batches {s_c0} -> {s_c})")) }
         }
         _ => Err(format!("unknown scenario {name}")),
     }
